@@ -1,10 +1,15 @@
 package main
 
 import (
+	"errors"
 	"fmt"
+	"io"
+	"io/fs"
+	"os"
 	"strings"
 
 	"github.com/corazawaf/coraza/v3/verifrt"
+	"github.com/corazawaf/coraza/v3/verifrt/simos"
 	"github.com/corazawaf/coraza/v3/verifrt/simsync"
 )
 
@@ -186,8 +191,146 @@ func selftest(args []string) int {
 		}
 		report("pool-edge", ok, "")
 	}
+	// 6. simulated disk vs the real one: the same fault-free operation
+	// sequences must give the same results (byte counts, data, error classes)
+	{
+		mism := simosFidelity(3000)
+		report("simos-fidelity", mism == "", mism)
+	}
 	if fail > 0 {
 		return 1
 	}
 	return 0
+}
+
+func errClass(err error) string {
+	switch {
+	case err == nil:
+		return "nil"
+	case errors.Is(err, io.EOF):
+		return "EOF"
+	case errors.Is(err, fs.ErrNotExist):
+		return "ENOENT"
+	case errors.Is(err, fs.ErrExist):
+		return "EEXIST"
+	case errors.Is(err, fs.ErrClosed):
+		return "closed"
+	}
+	return "other"
+}
+
+type fileAPI interface {
+	Write([]byte) (int, error)
+	Read([]byte) (int, error)
+	ReadAt([]byte, int64) (int, error)
+	Seek(int64, int) (int64, error)
+	Close() error
+}
+
+// simosFidelity runs n random operation sequences on the simulated and on the
+// real disk and returns a description of the first difference ("" = none).
+func simosFidelity(n int) string {
+	realDir, err := os.MkdirTemp("", "simos-fidelity")
+	if err != nil {
+		return "cannot create scratch dir: " + err.Error()
+	}
+	defer os.RemoveAll(realDir)
+	for seq := 0; seq < n; seq++ {
+		w := verifrt.NewWorld(uint64(7000 + seq))
+		verifrt.Install(w)
+		t := w.Work
+		simDir := simos.Root + fmt.Sprintf("/fid%d", seq)
+		rd := fmt.Sprintf("%s/fid%d", realDir, seq)
+		simos.MkdirAll(simDir, 0o755)
+		os.MkdirAll(rd, 0o755)
+		var sf, rf [3]fileAPI
+		var log []string
+		for step := 0; step < 25; step++ {
+			slot := t.Draw(3)
+			name := fmt.Sprintf("/f%d", t.Draw(3))
+			var a, b string
+			switch t.Draw(10) {
+			case 0, 1:
+				flag := []int{os.O_RDWR | os.O_CREATE, os.O_RDWR | os.O_CREATE | os.O_EXCL, os.O_WRONLY | os.O_CREATE | os.O_APPEND, os.O_RDONLY, os.O_RDWR | os.O_CREATE | os.O_TRUNC}[t.Draw(5)]
+				f1, e1 := simos.OpenFile(simDir+name, flag, 0o644)
+				f2, e2 := os.OpenFile(rd+name, flag, 0o644)
+				a, b = "open "+errClass(e1), "open "+errClass(e2)
+				if e1 == nil {
+					if sf[slot] != nil {
+						sf[slot].Close()
+					}
+					sf[slot] = f1
+				}
+				if e2 == nil {
+					if rf[slot] != nil {
+						rf[slot].Close()
+					}
+					rf[slot] = f2
+				}
+			case 2, 3:
+				if sf[slot] == nil || rf[slot] == nil {
+					continue
+				}
+				data := randBytes(t, t.Draw(20), "abcdef")
+				n1, e1 := sf[slot].Write(data)
+				n2, e2 := rf[slot].Write(data)
+				a, b = fmt.Sprintf("write %d %s", n1, errClass(e1)), fmt.Sprintf("write %d %s", n2, errClass(e2))
+			case 4:
+				if sf[slot] == nil || rf[slot] == nil {
+					continue
+				}
+				sz, off := t.Draw(16), int64(t.Draw(30))
+				b1, b2 := make([]byte, sz), make([]byte, sz)
+				n1, e1 := sf[slot].ReadAt(b1, off)
+				n2, e2 := rf[slot].ReadAt(b2, off)
+				a, b = fmt.Sprintf("readat %d %q %s", n1, b1[:n1], errClass(e1)), fmt.Sprintf("readat %d %q %s", n2, b2[:n2], errClass(e2))
+			case 5:
+				if sf[slot] == nil || rf[slot] == nil {
+					continue
+				}
+				sz := t.Draw(16)
+				b1, b2 := make([]byte, sz), make([]byte, sz)
+				n1, e1 := sf[slot].Read(b1)
+				n2, e2 := rf[slot].Read(b2)
+				a, b = fmt.Sprintf("read %d %q %s", n1, b1[:n1], errClass(e1)), fmt.Sprintf("read %d %q %s", n2, b2[:n2], errClass(e2))
+			case 6:
+				if sf[slot] == nil || rf[slot] == nil {
+					continue
+				}
+				off, wh := int64(t.Draw(20)), t.Draw(3)
+				p1, e1 := sf[slot].Seek(off, wh)
+				p2, e2 := rf[slot].Seek(off, wh)
+				a, b = fmt.Sprintf("seek %d %s", p1, errClass(e1)), fmt.Sprintf("seek %d %s", p2, errClass(e2))
+			case 7:
+				if sf[slot] == nil || rf[slot] == nil {
+					continue
+				}
+				e1, e2 := sf[slot].Close(), rf[slot].Close()
+				a, b = "close "+errClass(e1), "close "+errClass(e2)
+				if t.Draw(2) == 0 {
+					sf[slot], rf[slot] = nil, nil
+				}
+			case 8:
+				e1, e2 := simos.Remove(simDir+name), os.Remove(rd+name)
+				a, b = "remove "+errClass(e1), "remove "+errClass(e2)
+			case 9:
+				d1, e1 := simos.ReadFile(simDir + name)
+				d2, e2 := os.ReadFile(rd + name)
+				a, b = fmt.Sprintf("readfile %q %s", d1, errClass(e1)), fmt.Sprintf("readfile %q %s", d2, errClass(e2))
+			}
+			log = append(log, a)
+			if a != b {
+				return fmt.Sprintf("sequence %d step %d: simulated %q, real %q; history %v", seq, step, a, b, log)
+			}
+		}
+		for i := range sf {
+			if sf[i] != nil {
+				sf[i].Close()
+			}
+			if rf[i] != nil {
+				rf[i].Close()
+			}
+		}
+	}
+	return ""
 }
